@@ -291,27 +291,40 @@ func checkTargetRoutesForOverlap(
 	return conds
 }
 
-// checkForRouteOverlap checks if any route references the same hostname:port/path combination
+// checkForRouteOverlap checks if the route references the same hostname:port/path combination
 // as a route referenced in a policy.
 func checkForRouteOverlap(route *L7Route, hostPortPaths map[string]string) *conditions.Condition {
+	for _, key := range hostPortPathKeys(route) {
+		if val, ok := hostPortPaths[key]; ok {
+			conflictingRouteName := fmt.Sprintf("%s/%s", route.Source.GetNamespace(), route.Source.GetName())
+			msg := fmt.Sprintf("Policy cannot be applied to target %q since another "+
+				"Route %q shares a hostname:port/path combination with this target", val, conflictingRouteName)
+			cond := staticConds.NewPolicyNotAcceptedTargetConflict(msg)
+
+			return &cond
+		}
+	}
+
+	return nil
+}
+
+// hostPortPathKeys returns the hostname:port/path combinations that the route serves.
+func hostPortPathKeys(route *L7Route) []string {
+	var keys []string
+
 	for _, parentRef := range route.ParentRefs {
-		if parentRef.Attachment != nil {
-			port := parentRef.Attachment.ListenerPort
-			for _, hostname := range parentRef.Attachment.AcceptedHostnames {
+		if parentRef.Attachment == nil {
+			continue
+		}
+
+		port := parentRef.Attachment.ListenerPort
+		// AcceptedHostnames holds a list of hostnames per listener.
+		for _, hostnames := range parentRef.Attachment.AcceptedHostnames {
+			for _, hostname := range hostnames {
 				for _, rule := range route.Spec.Rules {
 					for _, match := range rule.Matches {
 						if match.Path != nil && match.Path.Value != nil {
-							key := fmt.Sprintf("%s:%d%s", hostname, port, *match.Path.Value)
-							if val, ok := hostPortPaths[key]; !ok {
-								hostPortPaths[key] = fmt.Sprintf("%s/%s", route.Source.GetNamespace(), route.Source.GetName())
-							} else {
-								conflictingRouteName := fmt.Sprintf("%s/%s", route.Source.GetNamespace(), route.Source.GetName())
-								msg := fmt.Sprintf("Policy cannot be applied to target %q since another "+
-									"Route %q shares a hostname:port/path combination with this target", val, conflictingRouteName)
-								cond := staticConds.NewPolicyNotAcceptedTargetConflict(msg)
-
-								return &cond
-							}
+							keys = append(keys, fmt.Sprintf("%s:%d%s", hostname, port, *match.Path.Value))
 						}
 					}
 				}
@@ -319,16 +332,18 @@ func checkForRouteOverlap(route *L7Route, hostPortPaths map[string]string) *cond
 		}
 	}
 
-	return nil
+	return keys
 }
 
-// buildHostPortPaths uses the same logic as checkForRouteOverlap, except it's
-// simply initializing the hostPortPaths map with the route that's referenced in the Policy,
-// so it doesn't care about the return value.
+// buildHostPortPaths returns the hostname:port/path combinations of the route that's referenced in the Policy,
+// mapped to the name of the route.
 func buildHostPortPaths(route *L7Route) map[string]string {
 	hostPortPaths := make(map[string]string)
 
-	checkForRouteOverlap(route, hostPortPaths)
+	routeName := fmt.Sprintf("%s/%s", route.Source.GetNamespace(), route.Source.GetName())
+	for _, key := range hostPortPathKeys(route) {
+		hostPortPaths[key] = routeName
+	}
 
 	return hostPortPaths
 }
